@@ -259,6 +259,7 @@ pub fn engine_report(id: &str, tier: &str, seed: u64, budget_s: u64) -> Option<R
                         let mut prng = crate::rng::Rng::derive(seed, idx, 0xE17);
                         let ks: Vec<usize> = if npos == 0 || n <= npos { (1..n).collect() } else { (0..npos).map(|_| prng.range(1, (n - 1) as u64) as usize).collect() };
                         for k in ks {
+                            if Instant::now() > deadline { timed_out.store(true, std::sync::atomic::Ordering::SeqCst); break; }
                             let mut c2 = case.clone();
                             c2.sim.forced_close_steps = vec![k];
                             let r = Sim::new(c2.clone()).run();
@@ -270,6 +271,7 @@ pub fn engine_report(id: &str, tier: &str, seed: u64, budget_s: u64) -> Option<R
                                 let span = n1 - k - 1;
                                 let k2s: Vec<usize> = if npos == 0 { ((k + 1)..n1).collect() } else { (0..usize::min(12, span)).map(|_| k + 1 + prng.below(span as u64) as usize).collect() };
                                 for k2 in k2s {
+                                    if Instant::now() > deadline { timed_out.store(true, std::sync::atomic::Ordering::SeqCst); break; }
                                     let mut c3 = case.clone();
                                     c3.sim.forced_close_steps = vec![k, k2];
                                     let r = Sim::new(c3.clone()).run();
@@ -308,6 +310,10 @@ pub fn engine_report(id: &str, tier: &str, seed: u64, budget_s: u64) -> Option<R
     extra.insert("executions_reaching_quiescence".into(), json!(agg.quiescent));
     extra.insert("executions_ended_by_panic".into(), json!(agg.poisoned));
     extra.insert("threads".into(), json!(threads));
+    extra.insert("wall_budget_s".into(), json!(budget_s));
+    extra.insert("wall_budget_reached".into(), json!(timed_out.load(std::sync::atomic::Ordering::SeqCst)));
+    extra.insert("base_cases_planned".into(), json!(total_cases));
+    extra.insert("base_cases_started".into(), json!(next.load(std::sync::atomic::Ordering::SeqCst).min(total_cases)));
     if id == "C09" { extra.insert("stronger_slow_start_reading_would_fire".into(), json!(agg.stronger_slow_start)); }
     rep.extra = extra;
     for (k, min) in &plan.gates {
